@@ -57,7 +57,7 @@ func EngErr(err error) string {
 
 // EngineRunner executes engine-layer script lines ("E ...") on the real engine.
 type EngineRunner struct {
-	stuck bool // a call of the engine never returned (watchdog): the handle is abandoned at the next close
+	stuck      bool              // a call of the engine never returned (watchdog): the handle is abandoned at the next close
 	Root       string            // scratch root of this scenario
 	dirs       map[string]string // logical directory name -> path
 	cur        string            // current logical directory
@@ -75,13 +75,13 @@ type EngineRunner struct {
 	probeClose bool
 	// hostile caller (C15): one key buffer and one value buffer are reused for every call and
 	// overwritten after each return; returned values are kept, poisoned and watched
-	hostile   bool
-	oldBatch  *kv.Batch // the previous, committed batch (its handle must stay dead)
-	probedKeys [][]byte // keys asked for by the read probes of the last probed call
-	keyBuf    []byte
-	valBuf    []byte
-	returned  []retSlice
-	mergeSeen []uint32
+	hostile    bool
+	oldBatch   *kv.Batch // the previous, committed batch (its handle must stay dead)
+	probedKeys [][]byte  // keys asked for by the read probes of the last probed call
+	keyBuf     []byte
+	valBuf     []byte
+	returned   []retSlice
+	mergeSeen  []uint32
 	// first data file written entirely under the current DataFileSize (files that were
 	// active in an earlier session may have been filled under another limit)
 	sessionFirstFile uint32
